@@ -3,6 +3,7 @@ module verif/harness
 go 1.23.2
 
 require (
+	cosmossdk.io/api v0.7.5
 	cosmossdk.io/log v1.4.1
 	cosmossdk.io/math v1.4.0
 	cosmossdk.io/store v1.1.1
@@ -17,11 +18,11 @@ require (
 	github.com/goatnetwork/goat v0.0.0
 	github.com/supranational/blst v0.3.13
 	golang.org/x/crypto v0.29.0
+	google.golang.org/protobuf v1.35.1
 	pgregory.net/rapid v1.3.0
 )
 
 require (
-	cosmossdk.io/api v0.7.5 // indirect
 	cosmossdk.io/client/v2 v2.0.0-beta.4 // indirect
 	cosmossdk.io/collections v0.4.0 // indirect
 	cosmossdk.io/core v0.11.1 // indirect
@@ -153,7 +154,6 @@ require (
 	google.golang.org/genproto/googleapis/api v0.0.0-20240814211410-ddb44dafa142 // indirect
 	google.golang.org/genproto/googleapis/rpc v0.0.0-20240930140551-af27646dc61f // indirect
 	google.golang.org/grpc v1.67.1 // indirect
-	google.golang.org/protobuf v1.35.1 // indirect
 	gopkg.in/ini.v1 v1.67.0 // indirect
 	gopkg.in/yaml.v3 v3.0.1 // indirect
 	gotest.tools/v3 v3.5.1 // indirect
